@@ -612,8 +612,10 @@ func (vlog *valueLog) open(db *DB) error {
 		if vlog.opt.ReadOnly {
 			flags = os.O_RDONLY
 		}
+		// z.NewFile means the file existed but was empty: the process died after creating it and
+		// before giving it its size and header. lf.open has just initialised it like a fresh file.
 		if err := lf.open(vlog.fpath(fid), flags,
-			2*vlog.opt.ValueLogFileSize); err != nil {
+			2*vlog.opt.ValueLogFileSize); err != nil && err != z.NewFile {
 			return y.Wrapf(err, "Open existing file: %q", lf.path)
 		}
 		// We shouldn't delete the maxFid file.
